@@ -282,8 +282,49 @@ def h_jwe_recipients(ctx):
     return Outcome(f"multi:{'accepted' if r.ok else 'rejected'}:{'valid' if not reasons else 'invalid'}", vs, nontrivial=(pair, j, verify_all, strict, repr(extra), name, repr(v)))
 
 
+def h_jwe_object_again(ctx):
+    """A General/Flattened JSON encryption object is encrypted (or its merged headers are read), then the caller edits one header member
+    in place - in the protected, the shared unprotected or the per-recipient header - and encrypts it again: the second call validates
+    the header the object has NOW."""
+    from joserfc import jwe
+    cls_name = ctx.choose("object", ["GeneralJSONEncryption", "FlattenedJSONEncryption"])
+    first = ctx.choose("before_the_edit", ["encrypt_json", "recipient.headers()", "nothing"])
+    strict = ctx.choose("strict", [True, False])
+    pos = ctx.choose("position", ["protected", "unprotected", "recipient"])
+    name = ctx.choose("member", NAMES)
+    v = ctx.choose("value", vals())
+    jwk = scen.key("oct16")
+    key = A.jkey(jwk, "dict")
+    reg = jwe.JWERegistry(algorithms=["A128KW", "A128GCM", "DEF"] + ([v] if name in ("alg", "enc") and isinstance(v, str) and v in scen.JWE_ALL else []), strict_check_header=strict)
+    obj = getattr(jwe, cls_name)({"enc": "A128GCM"}, b"plaintext", {"cty": "x"})
+    obj.add_recipient({"alg": "A128KW"}, key)
+    if first == "encrypt_json":
+        r0 = call(jwe.encrypt_json, obj, None, registry=reg)
+        if not r0.ok:
+            return Outcome("first-encryption-failed", [viol("JWE produce rejects the valid base header", f"{cls_name}: {r0.exc!r}")], nontrivial=(cls_name, first))
+    elif first == "recipient.headers()":
+        obj.recipients[0].headers()
+    target = {"protected": obj.protected, "unprotected": obj.unprotected, "recipient": obj.recipients[0].header}[pos]
+    if name in ("alg", "enc") and pos != {"alg": "recipient", "enc": "protected"}[name]:
+        return Outcome("noop", [], nontrivial=None)       # the member would then be present twice; one position per member
+    target[name] = copy.deepcopy(v)
+    merged = {**obj.protected, **obj.unprotected, **obj.recipients[0].header}
+    if isinstance(merged.get("p2c"), int) and not isinstance(merged.get("p2c"), bool) and 10 ** 5 < merged["p2c"] < 2 ** 31:
+        return Outcome("out-of-scope", [], nontrivial=None)
+    for gen in ("epk", "iv", "tag", "p2s", "p2c"):
+        pass
+    reasons = RH.invalid_reasons(merged, "jwe", False, strict, {}, False)
+    r = call(jwe.encrypt_json, obj, None, registry=reg)
+    vs = []
+    what = f"{cls_name}, {first} first, then {pos}[{name!r}] = {v!r}, strict={strict}: header {merged!r}"
+    if r.ok and reasons:
+        vs.append(viol(f"JWE produce accepts an invalid header on an object that was used before [{reasons[0].split(' has ')[0] if ' has ' in reasons[0] else reasons[0]}] ({first} first)", f"{what}: {reasons}"))
+    return Outcome(f"again:{'accepted' if r.ok else 'rejected'}:{'valid' if not reasons else 'invalid'}", vs, nontrivial=(cls_name, first, strict, pos, name, repr(v)))
+
+
 PARTS = [
     Part("jws-headers", h_jws, bound={"quick": 1, "thorough": 2}, split_depth=4, budget={"quick": 120, "thorough": 1800}),
     Part("jwe-headers", h_jwe, bound={"quick": 1, "thorough": 1}, split_depth=4, budget={"quick": 120, "thorough": 1800}),
     Part("jwe-several-recipients", h_jwe_recipients, split_depth=4),
+    Part("jwe-object-edited-and-encrypted-again", h_jwe_object_again, split_depth=4),
 ]
